@@ -199,7 +199,7 @@ func genModel(r *rng, k genKnobs) *Model {
 					}
 					ts.Direct = append(ts.Direct, ref)
 				}
-				if k.Invalid && r.chance(15) {
+				if k.Invalid && r.chance(30) {
 					// a tupleset without type restrictions
 					ts.Direct = nil
 				}
@@ -314,6 +314,15 @@ func genModel(r *rng, k genKnobs) *Model {
 					// a tupleset relation the type does not define
 					return &Expr{Kind: KTTU, Rel: r.pick(relPool), Tupleset: "nosuchtupleset"}
 				}
+				if k.Invalid && r.chance(25) {
+					// a tupleset that is not directly assignable: a relation of the type
+					// that is itself a rewrite (its metadata entry lists no type)
+					for _, o := range relsOf(s.typ) {
+						if o != s && o.rel.Expr != nil && o.rel.Expr.Kind != KThis && len(o.rel.Direct) == 0 && len(cands) > 0 {
+							return &Expr{Kind: KTTU, Rel: r.pick(cands), Tupleset: o.rel.Name}
+						}
+					}
+				}
 				if len(cands) > 0 {
 					return &Expr{Kind: KTTU, Rel: r.pick(cands), Tupleset: ts.Name}
 				}
@@ -397,7 +406,7 @@ func genModel(r *rng, k genKnobs) *Model {
 	if r.chance(6) {
 		applyDialect(r, m, inDSLGen)
 	}
-	if r.chance(5) {
+	if r.chance(5) || (k.Invalid && r.chance(50)) {
 		m.Present = true
 	}
 	return m
@@ -597,6 +606,44 @@ func edgelessOperator(m *Model) bool {
 // assignment sits directly under an intersection or is the base of an
 // exclusion (a shape only JSON/protobuf can express). Returns false when the
 // model has no such relation.
+// injectUnsetOperand replaces one operand of one operator by an unset userset
+// (JSON: {}): the model is malformed and must be refused - an operand that
+// produces no edges must not simply disappear from an intersection or from the
+// base of an exclusion.
+func injectUnsetOperand(r *rng, m *Model) bool {
+	var ops []*Expr
+	for _, t := range m.Types {
+		for _, rel := range t.Relations {
+			var rec func(e *Expr)
+			rec = func(e *Expr) {
+				if e == nil {
+					return
+				}
+				if e.isOp() && len(e.Children) >= 2 {
+					ops = append(ops, e)
+				}
+				for _, c := range e.Children {
+					rec(c)
+				}
+			}
+			rec(rel.Expr)
+		}
+	}
+	if len(ops) == 0 {
+		return false
+	}
+	e := ops[r.intn(len(ops))]
+	i := r.intn(len(e.Children))
+	if e.Kind == KExcl && r.chance(70) {
+		i = 0
+	}
+	if e.Children[i].Kind == KThis {
+		return false // (the direct assignment of the relation is referred to by position)
+	}
+	e.Children[i] = &Expr{Kind: KUnset}
+	return true
+}
+
 func injectEmptyDirect(r *rng, m *Model) bool {
 	var cands []*Relation
 	for _, t := range m.Types {
@@ -885,6 +932,12 @@ func genEmptyRelationName(r *rng) *Model {
 	if r.chance(50) {
 		doc.Relations = append(doc.Relations, &Relation{Name: "", Expr: &Expr{Kind: KThis}, Direct: []Ref{{Type: "doc", EmptyRel: true}, {Type: "user", Wild: r.chance(50)}}})
 	}
+	if r.chance(35) {
+		// ... or the relation named "" does not exist on the type the restrictions
+		// point at: a userset on an undefined relation, not a restriction to the
+		// type itself
+		group.Relations = []*Relation{{Name: "member", Expr: &Expr{Kind: KThis}, Direct: []Ref{{Type: "employee"}}}}
+	}
 	m.Types = append(m.Types, group, doc)
 	return m
 }
@@ -963,7 +1016,7 @@ func genOddNames(r *rng) *Model {
 		a, b = "Repo", "Role" // upper case, prefixes of library-internal markers such as "R#"
 	}
 	ab := a + sep + b
-	if r.chance(15) {
+	if r.chance(30) {
 		// a name that ends in the characters of the wildcard suffix
 		ab = a + []string{":", "*", "::", ":*"}[r.intn(4)]
 	} else if r.chance(15) {
